@@ -28,6 +28,9 @@ type api struct {
 	stored func(t ntv) (ntv, bool)
 }
 
+// items of an earlier Set on the leaves of the next value.e2em (see value.e2eprev)
+var pendingPrev []leafItem
+
 func fromV2(tv *configv2.TypedValue) ntv {
 	return ntv{Bytes: tv.Bytes, Type: int32(tv.Type), Opts: tv.TypeOpts}
 }
@@ -243,6 +246,21 @@ func exec(line string) (out string) {
 			return "err v2-v3-differ"
 		}
 		return "ok " + encB([]byte(str))
+	}
+	if op == "value.e2eprev" {
+		// value.e2eprev <gval> <opts> …: the NEXT value.e2em first sets these values on the same leaves of
+		// the same target (an earlier Set that the one under test overwrites); implementation only
+		var items []leafItem
+		for i := 0; i+1 < len(args); i += 2 {
+			g, ok1 := decGVal(args[i])
+			o, ok2 := decOpts(args[i+1])
+			if !ok1 || !ok2 || o.nilPath {
+				return "bad-op"
+			}
+			items = append(items, leafItem{g: g, o: o})
+		}
+		pendingPrev = items
+		return "ok"
 	}
 	if op == "value.e2em" {
 		// value.e2em <gval> <opts> <gval> <opts> …: one Set of several leaves, read back together
